@@ -38,3 +38,5 @@ func TestWorker(t *testing.T) {
 	}
 	workerMain()
 }
+
+func TestC05(t *testing.T) { runProp(t, "C05", drawC05) }
